@@ -164,7 +164,7 @@ def main(argv=None):
     harness_errors = [r for r in results if "harness_error" in r]
     if harness_errors:
         for r in harness_errors:
-            print(f"--- harness error in shard {r['shard']}:\n{r['harness_error']}")
+            print(f"--- harness error in shard {r['shard']}:\n{r['harness_error'][-1500:]}")
         print(f"HARNESS-ERROR property={prop}")
         return 2
 
